@@ -151,6 +151,10 @@ def scale_by_hs(repo, rep):
 
 
 def run(repo, rep, tier):
+    rep.rule("R-C10-6", "(shared with C01) ratio statistics divide moments taken over one band by one quadrature: otherwise |m1|/m0 can exceed 1 and "
+                        "the spread leaves [0, 81.03] / becomes NaN")
+    from .shared import same_band_ratios
+    same_band_ratios(repo, rep, "R-C10-6")
     rep.rule("R-C10-1", "every statistic is exactly homogeneous in the spectrum with the degree the property states (heights 1/2, drift / "
                         "slope / moments 1, periods / directions / spreads / shape parameters 0); comparisons are scale-invariant")
     rep.rule("R-C10-2", "direction results are reduced modulo 360 as the outermost arithmetic step")
